@@ -547,6 +547,59 @@ fn sections(p: &Params) -> Program {
                 advancer(1, 3),
             ]
         }
+        // 16. (C16, C13) a deferred function that runs during thread 0's own collection works
+        //     under a guard of its own (like a destructor that calls `cs()`): while that guard
+        //     lives, the participant must stay in the epoch it was pinned in, whatever the
+        //     function flushes or defers meanwhile
+        15 | 16 => {
+            nhandles = if prog == 16 { 5 } else { 2 };
+            let mut v = vec![
+                ebody(&ew, move |c, ew| {
+                    let h = &ew.handles[0].get().0;
+                    let hp = h as *const LocalHandle as usize;
+                    let g = c.pin(h);
+                    let id = mon().closure_deferred(c.t);
+                    unsafe {
+                        cv::ebr::defer(&g.g, move || {
+                            ran(id);
+                            // only on the thread that owns the participant: a handle is not Send
+                            if try_mon().is_none() || sched::tid() != 0 {
+                                return;
+                            }
+                            let h = &*(hp as *const LocalHandle);
+                            let c2 = ECtx::new();
+                            let g2 = c2.pin(h);
+                            for _ in 0..3 {
+                                c2.mark();
+                                c2.flush(&g2);
+                            }
+                            c2.mark();
+                            c2.unpin(g2);
+                            mon().cover("guard-inside-deferred-function-flushes");
+                        });
+                    }
+                    c.flush(&g);
+                    c.unpin(g);
+                    let mut rounds = 0;
+                    while mon().ebr.deferred[id].runs == 0 && rounds < 8 {
+                        c.round(h);
+                        rounds += 1;
+                    }
+                }),
+            ];
+            if prog == 16 {
+                // (C13) one thread per step, so that only thread 0 has to be interrupted - at
+                // each of its four marks: a function deferred while the inner guard is alive,
+                // then three passes that move the epoch on
+                v.push(deferrer(1, 0));
+                v.push(advancer(2, 1));
+                v.push(advancer(3, 1));
+                v.push(advancer(4, 1));
+            } else {
+                v.push(advancer(1, 4));
+            }
+            v
+        }
         // 12. (C14) a guard that has outlived its handle is reactivated while another participant
         //     advances: the participant must stay registered (and hold the epoch back) for as
         //     long as the guard lives
